@@ -131,7 +131,7 @@ func ownDetail(b *gen.B) (string, bool) {
 	case gen.WDomain:
 		return b.Domain, true
 	case gen.WTags:
-		return "tags: [tk=", true
+		return "tk=", true
 	case gen.WHTTP:
 		return "http code: 404", true
 	case gen.WGrpc:
@@ -161,6 +161,7 @@ func H_C09_PlusV(v *sym.V) {
 		e = wire.Hop(e)
 	}
 	p := fmt.Sprintf("%+v", errors.Formattable(e))
+	v.Observe("plusv", p)
 	layers := printOrder(e, nil)
 	// head
 	if !multiline {
